@@ -429,6 +429,37 @@ Print Assumptions cg_terminates_spd_sparse_R.
 Example cg_terminates_spd_sparse_R_nonvacuous : wfS exr_s /\ sp_rows exr_s = sp_cols exr_s /\ sp_symmetric exr_s /\ sp_posdef exr_s.
 Proof. destruct exr_spd_hyps as (H1 & H2 & H3 & H4 & _). auto. Qed.
 
+(* symmetric A, NOT necessarily definite (indefinite, singular): "Ok within n iterations for every tol >= 0 when no breakdown division occurs" --
+   in exact arithmetic a breakdown division is a Panic of the model, so: whenever solve_cg returns at all (budget >= n) it returns Ok k, k <= n;
+   it can neither exhaust its budget nor need more than n iterations *)
+Theorem cg_no_breakdown_terminates_R : forall n (mulA : list R -> res (list R)), @LinOp AR n mulA -> @SymOp AR n mulA ->
+  forall cols (b x0 : list R) max (tol : R) res x g,
+  (0 <= tol)%R -> n <= max ->
+  @solve_cg SAR mulA n cols b x0 max tol = Ok (res, x, g) ->
+  exists k, res = IOk k /\ k <= n.
+Proof. intros n mulA LO SYM cols b x0 max tol res x g. exact (cg_no_breakdown_terminates_R n mulA LO SYM cols b x0 max tol res x g). Qed.
+Check cg_no_breakdown_terminates_R : forall n (mulA : list R -> res (list R)), @LinOp AR n mulA -> @SymOp AR n mulA ->
+  forall cols (b x0 : list R) max (tol : R) res x g,
+  (0 <= tol)%R -> n <= max ->
+  @solve_cg SAR mulA n cols b x0 max tol = Ok (res, x, g) ->
+  exists k, res = IOk k /\ k <= n.
+Print Assumptions cg_no_breakdown_terminates_R.
+Example cg_no_breakdown_terminates_R_nonvacuous : @LinOp AR 2 (@sp_mul AR exr_s) /\ @SymOp AR 2 (@sp_mul AR exr_s).
+Proof. destruct exr_spd_hyps as (_ & _ & _ & _ & H1 & H2 & _). auto. Qed.
+
+Theorem cg_no_breakdown_terminates_sparse_R : forall (s : sparse AR) (b x0 : list R) max (tol : R) res x g,
+  wfS s -> sp_symmetric s -> (0 <= tol)%R -> sp_rows s <= max ->
+  @run_sparse SAR CG s b x0 max tol = Ok (res, x, g) ->
+  exists k, res = IOk k /\ k <= sp_rows s.
+Proof. intros s b x0 max tol res x g. exact (cg_no_breakdown_terminates_sparse_R s b x0 max tol res x g). Qed.
+Check cg_no_breakdown_terminates_sparse_R : forall (s : sparse AR) (b x0 : list R) max (tol : R) res x g,
+  wfS s -> sp_symmetric s -> (0 <= tol)%R -> sp_rows s <= max ->
+  @run_sparse SAR CG s b x0 max tol = Ok (res, x, g) ->
+  exists k, res = IOk k /\ k <= sp_rows s.
+Print Assumptions cg_no_breakdown_terminates_sparse_R.
+Example cg_no_breakdown_terminates_sparse_R_nonvacuous : wfS exr_s /\ sp_symmetric exr_s.
+Proof. split; [exact exr_s_wf | exact exr_s_sym]. Qed.
+
 (* tol = 0: in exact arithmetic CG is a DIRECT solver for SPD systems -- within n iterations it returns x with A x = b exactly, and that x is
    the solution (every xs with A xs = b equals it): the "agreement with the direct solution" of C09, in exact arithmetic *)
 Theorem cg_direct_solver_R : forall n (mulA : list R -> res (list R)), @LinOp AR n mulA -> @SymOp AR n mulA ->
